@@ -264,6 +264,13 @@ def gen(tier, rng):
             for ks in stacks:
                 yield _case(ks, v, n % 4, label, ip=(n % 3 != 0))
                 n += 1
+    if tier == "quick":
+        # stacks of three (A after B after A ...) on a sample of spellings; the thorough tier has all of them
+        for m in range(1, 13):
+            for v in (m, str(m), "0" + str(m)):
+                for ks in STACKS3:
+                    yield _case(ks, v, n % 4, "triple", ip=(n % 3 != 0))
+                    n += 1
     for v in EXOTIC_MONTHS:
         for ks in stacks:
             yield _case(ks, v, n % 4, "exotic-month", ip=(n % 3 != 0))
